@@ -382,6 +382,11 @@ func RandomReq(rng *rand.Rand, hostnameProb float64) *Req {
 			q.DNSType = DNSTypeNames[DNSTypeList[rng.Intn(len(DNSTypeList))]]
 		}
 	}
+	if q.DNSType != 0 && rng.Intn(10) == 0 {
+		// Query types beyond the well-known ones: CAA, the first value of the
+		// second 512-block, TA, DLV, private use, the largest value.
+		q.DNSType = []uint16{257, 255, 512, 32768, 32769, 65280, 65534, 65535, 249}[rng.Intn(9)]
+	}
 	if rng.Intn(2) == 0 {
 		q.ClientName = RequestClientNames[rng.Intn(len(RequestClientNames))]
 	}
